@@ -97,12 +97,19 @@ def build_harness(crate="harness"):
         lock = os.path.join(d, "Cargo.lock")
         if not os.path.exists(lock):
             shutil.copy("/repo/Cargo.lock", lock)
-        rc, out = sh(["cargo", "build", "--offline", "--release"], cwd=d, timeout=3000)
+        env = dict(ENV)
+        if crate == "harness-sched":
+            # fast-stm with scheduler yield points, regenerated from the registry source on every build
+            rc, out = sh([sys.executable, os.path.join(V, "sched", "make_vendor.py")], timeout=120)
+            if rc != 0:
+                return False, out
+            env["CARGO_TARGET_DIR"] = TARGET + "-sched"
+        rc, out = sh(["cargo", "build", "--offline", "--release"], cwd=d, timeout=3000, env=env)
         return rc == 0, out
 
 
-def hbin(name):
-    return os.path.join(TARGET, "release", name)
+def hbin(name, crate="harness"):
+    return os.path.join(TARGET + ("-sched" if crate == "harness-sched" else ""), "release", name)
 
 
 # ----------------------------------------------------------------------------- hygiene
